@@ -165,6 +165,16 @@ func (m *monitor) one(stream string, idx int, src string, mode int) {
 		return
 	}
 	m.ev("parse.tree")
+	if bal, app, why := bracketsBalanced(src); app {
+		m.ev("accepted.bracket-balance-checked")
+		if !bal {
+			b := 60
+			e := copyMap(extra)
+			e["tree"] = sexpr(tree, &b)
+			e["brackets"] = why
+			m.violation("accepted-unbalanced-brackets", modes[mode]+" accepted a text whose brackets are not properly nested (an error was swallowed): "+why, stream, idx, src, e)
+		}
+	}
 	m.ev("parse.tree.by-stream:" + strings.TrimRight(strings.SplitN(stream, "-", 2)[0], "0123456789"))
 	m.walk(tree, stream, idx, src, mode, extra)
 }
@@ -454,7 +464,7 @@ func Run(c *core.Ctx) {
 		"enum-L<n>: ALL sequences of n entries (n<=4 quick, <=5 thorough) over a %d-entry alphabet of tokens and block-opening fragments %q joined by one space (case idx = prefix of n-1 entries, one input per alphabet entry per case); "+
 		"mut: 1..3 token-level mutations (delete, duplicate, swap, drop/insert/replace bracket, stray ; } ) inside blocks, replace/insert random token, truncate, relayout newline) of seed programs = own templates + /repo/examples/**/*.ecal + raw string literals of /repo *_test.go that look like source (lexical filter; math.* users left out); "+
 		"bytes: random inputs <=2048 bytes (uniform bytes, ASCII noise with control/NUL/high bytes, token soup with control separators, programs with invalid UTF-8/NUL/BOM injected, long runs of one structural character). "+
-		"Oracles: exactly one of (tree,error); error is *parser.Error naming the source with Line>=1,Pos>=1 inside the input (the code's own end-of-input convention Line=Pos=0 with type 'Unexpected end' is accepted); shape table per node kind; Validate/PrettyPrint panics; Eval (<=%d steps via counting debugger) panics on node structure; goroutines alive after the call (GOMAXPROCS=1 + Gosched settle, witness from goroutine dump). "+
+		"Oracles: exactly one of (tree,error); an accepted text has properly nested brackets outside strings/comments (judged by an own chunker, only for texts without backslash/control/non-ASCII bytes); error is *parser.Error naming the source with Line>=1,Pos>=1 inside the input (the code's own end-of-input convention Line=Pos=0 with type 'Unexpected end' is accepted); shape table per node kind; Validate/PrettyPrint panics; Eval (<=%d steps via counting debugger) panics on node structure; goroutines alive after the call (GOMAXPROCS=1 + Gosched settle, witness from goroutine dump). "+
 		"distinct_nontrivial = distinct inputs whose returned tree has >=2 nodes (walked by the shape table and consumers) + distinct (error type, line, pos) signatures", len(alphabet), alphabet, evalBudget))
 	c.Note("exhaustive", "true")
 	m := newMonitor(c)
